@@ -88,6 +88,7 @@ Level1 ==
        [] Family = "rookcap" -> k' \in (1..64) \ (IF c' = 1 THEN {5, 1, 8} ELSE {61, 57, 64})   \* capturer's king
        [] Family = "terminal" -> k' \in 1..64    \* strong side's king
        [] Family \in {"mating", "avoid"} -> k' \in {s \in 1..64 : File(s) \in {1, 8} \/ Rank(s) \in {1, 8}}   \* the bare king, on the edge
+       [] Family = "terminal2" -> k' \in {1, 8, 57, 64}                                                     \* the king that has no move, in a corner
        [] Family = "minor" -> k' \in {1, 8, 57, 64}                                                         \* the defending king, in a corner
        [] Family = "ep" -> k' \in 1..8           \* file of the capturing pawn
        [] Family = "promo" -> k' \in 1..8        \* file of the pawn
@@ -125,6 +126,14 @@ Level2 ==
               /\ pos' = [b |-> Place(Place(Place(Empty, sk, Pc(c, K)), sq, Pc(c, pc)), k, Pc(1 - c, K)),
                          stm |-> IF Family = "mating" THEN c ELSE 1 - c, cr |-> {}, ep |-> 0]
               /\ idx' = pc + 8 * sq + 512 * sk
+       [] Family = "terminal2" ->
+            \* finished games in which the side to move still HAS a man besides its king (pinned, blocked or just unable to help):
+            \* king in the corner with one own man next to it, against king + queen / rook / bishop
+            \E pc \in {Q, R, B} : \E wpc \in {B, N, P} : \E sk \in (1..64) \ {k} : \E sq \in (1..64) \ {k, sk} : \E wsq \in (1..64) \ {k, sk, sq} :
+              /\ Dist(sk, k) = 2 /\ Dist(wsq, k) = 1
+              /\ pos' = [b |-> Place(Place(Place(Place(Empty, sk, Pc(c, K)), sq, Pc(c, pc)), k, Pc(1 - c, K)), wsq, Pc(1 - c, wpc)),
+                         stm |-> 1 - c, cr |-> {}, ep |-> 0]
+              /\ idx' = pc + 8 * sq + 512 * sk + 7 * wsq + wpc
        [] Family = "minor" ->
             \* king + one minor piece (colour c, to move) against king + one minor piece or pawn standing next to its own king in
             \* the corner: the only mates of such material have the defender's own man take the last flight square
